@@ -654,6 +654,36 @@ def ASM.setWriteOp (a : ASM) (g : GenStep) : ASM × AsmRes :=
     if !a.checkAssert 0 then (a, .assertionError)
     else ({ a with writer := true }).doWriteOp g
 
+/-- `_read_ahead_pending()` apart from the buffer test: no operation active (the connection-closed
+    and buffer-non-empty tests are the environment: one element of `pend` per extra read that finds
+    the connection open and the read-ahead buffer non-empty) -/
+def ASM.noOp (a : ASM) : Bool := !(a.handshaker || a.closer || a.reader || a.writer)
+
+/-- the `while self._read_ahead_pending(): self.reader = readAsync(16384); self._doReadOp()` loop -/
+def ASM.drainLoop (r : ASM × AsmRes) : List GenStep → ASM × AsmRes
+  | [] => r
+  | g :: rest =>
+    match r.2 with
+    | .ok evs =>
+      if r.1.noOp then
+        let r' := ({ r.1 with reader := true }).doReadOp g
+        match r'.2 with
+        | .ok evs' => ASM.drainLoop (r'.1, .ok (evs ++ evs')) rest
+        | _ => r'
+      else r
+    | _ => r
+
+/-- inReadEvent including the read-ahead drain of its implicit-read branch; `pend` = what the
+    extra reads do (empty = nothing was read ahead) -/
+def ASM.inReadDrain (a : ASM) (g : GenStep) (pend : List GenStep) : ASM × AsmRes :=
+  ASM.guard <|
+    if !a.checkAssert then (a, .assertionError)
+    else if a.handshaker then a.doHandshakeOp g
+    else if a.closer then a.doCloseOp g
+    else if a.reader then a.doReadOp g
+    else if a.writer then a.doWriteOp g
+    else ASM.drainLoop (({ a with reader := true }).doReadOp g) pend
+
 inductive AsmOp where
   | inRead | inWrite | setHandshake | setClose | setWrite
   deriving Repr, DecidableEq
